@@ -427,12 +427,15 @@ def class_attr_types(cls, rounds=3, attrs=None, calls=None):
     and of every property (joined over the getter's returns); iterated so that attributes defined from one another settle"""
     table = dict(attrs or {})
     methods = [m for m in cls.body if isinstance(m, ast.FunctionDef)]
+    props = {'self.' + m.name for m in methods if any(norm(d) == 'property' for d in m.decorator_list)}
     for _ in range(rounds):
         new = {}
         for m in methods:
             setter = any(norm(d).endswith('.setter') for d in m.decorator_list)
             fl = DtypeFlow(m, attrs=table, calls=calls)
             for k, v in fl.attr_stores.items():
+                if k in props:
+                    continue       # an assignment to a property runs its setter; what is kept is what the setter stores
                 new[k] = new.get(k, frozenset()) | v
             if not setter and any(norm(d) == 'property' for d in m.decorator_list):
                 r = frozenset()
